@@ -77,6 +77,13 @@ func Overlay(opt *LoadOptions) (map[string][]byte, map[string]string, error) {
 		}
 		virt := filepath.Join(opt.Repo, p, "zz_vf_lib.go")
 		ov[virt] = []byte(strings.Replace(string(lib), "package PKG", "package "+pkgName, 1))
+		// HIDE: repository files of this package that the harness replaces (scripts/selftest.py rewrites the
+		// package's own *_test.go files into harness files; the originals must not be compiled next to them)
+		if hide, err := os.ReadFile(filepath.Join(dir, "HIDE")); err == nil {
+			for _, name := range strings.Fields(string(hide)) {
+				ov[filepath.Join(opt.Repo, p, name)] = []byte("package " + pkgName + "\n")
+			}
+		}
 	}
 	return ov, real, nil
 }
